@@ -139,6 +139,7 @@ type Features struct {
 	EmptyKeyOps                                       int
 	LongKey                                           int
 	Enumerations                                      int
+	FoldWrites                                        int // writes issued from inside a Fold callback
 	Steps                                             int
 	BGetRotated                                       int // Batch.Get served from a rotated (older) file
 	BGetActive                                        int // Batch.Get served from the database, active file
@@ -666,7 +667,11 @@ func (r *Runner) exec(op *Op) (touched [][]byte, global bool, fail *Fail) {
 		return nil, false, r.checkKeyList("ListKeys", keys, true)
 
 	case "fold":
-		return nil, false, r.checkFold(op.N)
+		var written [][]byte
+		for i := range op.Race {
+			written = append(written, op.Race[i].Op.Key)
+		}
+		return written, false, r.checkFold(op.N, op.Race)
 
 	case "stat":
 		st := r.DB.Stat()
@@ -789,21 +794,50 @@ func abbrevKeys(ks []string) []string {
 	return out
 }
 
-func (r *Runner) checkFold(stopAfter int) *Fail {
+// checkFold runs Fold and compares the visited pairs with the state the database had when Fold was called
+// (Fold walks a snapshot: writes issued from inside the callback - writes[i].At is the number of pairs visited
+// before the write - must not disturb it, C10).
+func (r *Runner) checkFold(stopAfter int, writes []RaceOp) *Fail {
 	var gotK []string
 	var bad *Fail
 	n := 0
+	snap := r.Model
+	if len(writes) > 0 {
+		snap = make(map[string][]byte, len(r.Model))
+		for k, v := range r.Model {
+			snap[k] = v
+		}
+	}
+	want := make([]string, 0, len(snap))
+	for k := range snap {
+		want = append(want, k)
+	}
+	sort.Strings(want)
 	err := r.DB.Fold(func(key, value []byte) bool {
 		n++
 		gotK = append(gotK, string(key))
-		want, ok := r.Model[string(key)]
+		wv, ok := snap[string(key)]
 		if !ok {
-			bad = failf("fold-unknown-key", "Fold visited key %q which the model does not hold", key)
+			bad = failf("fold-unknown-key", "Fold visited key %q which the database did not hold when Fold was called", key)
 			return false
 		}
-		if !sameBytes(value, want) {
-			bad = failf("fold-wrong-value", "Fold passed %s for key %q, want %s", ValueDigest(value), key, ValueDigest(want))
+		if !sameBytes(value, wv) {
+			bad = failf("fold-wrong-value", "Fold passed %s for key %q, want %s (the value at the time of the Fold call)", ValueDigest(value), key, ValueDigest(wv))
 			return false
+		}
+		for i := range writes {
+			if writes[i].At != n-1 {
+				continue
+			}
+			w := writes[i].Op
+			if w.K != "put" && w.K != "del" {
+				continue
+			}
+			if _, _, f := r.exec(&w); f != nil {
+				bad = f
+				return false
+			}
+			r.F.FoldWrites++
 		}
 		if stopAfter > 0 && n >= stopAfter {
 			return false
@@ -820,13 +854,12 @@ func (r *Runner) checkFold(stopAfter int) *Fail {
 	if err != nil {
 		return failf("fold-error", "Fold returned %v", err)
 	}
-	want := r.sortedModelKeys()
 	expect := len(want)
 	if stopAfter > 0 && stopAfter < expect {
 		expect = stopAfter
 	}
 	if n != expect {
-		return failf("fold-count", "Fold visited %d pairs, want %d (stop after %d, model %d keys)", n, expect, stopAfter, len(want))
+		return failf("fold-count", "Fold visited %d pairs, want %d (stop after %d, %d keys at the time of the call)", n, expect, stopAfter, len(want))
 	}
 	for i := 0; i < n; i++ {
 		if gotK[i] != want[i] {
@@ -889,7 +922,7 @@ func (r *Runner) checkFoldSilently() *Fail {
 	r.Transcript = nil
 	defer func() { r.Transcript = tr }()
 	en := r.F.Enumerations
-	f := r.checkFold(0)
+	f := r.checkFold(0, nil)
 	r.F.Enumerations = en
 	return f
 }
@@ -1430,6 +1463,7 @@ func (r *Runner) AddLabels() {
 	lab(r.F.EmptyKeyOps > 0, "empty-key-op")
 	lab(r.F.LongKey > 0, "long-key")
 	lab(r.F.Enumerations > 0, "enumeration")
+	lab(r.F.FoldWrites > 0, "write-from-inside-fold-callback")
 	lab(r.F.BGetRotated > 0, "batch-get-falls-through-to-rotated-file")
 	lab(r.F.BGetActive > 0, "batch-get-falls-through-to-active-file")
 	lab(r.F.BGetStaged > 0, "batch-get-staged")
@@ -1516,6 +1550,13 @@ func abbrevOp(op *Op) string {
 	case "emptykey", "bempty":
 		return op.K + " " + op.Which
 	case "fold":
+		if len(op.Race) > 0 {
+			var sub []string
+			for i := range op.Race {
+				sub = append(sub, fmt.Sprintf("@%d %s", op.Race[i].At, abbrevOp(&op.Race[i].Op)))
+			}
+			return fmt.Sprintf("fold stop=%d callback-writes{%s}", op.N, strings.Join(sub, "; "))
+		}
 		return fmt.Sprintf("fold stop=%d", op.N)
 	case "iter":
 		if op.Iter != nil {
